@@ -798,3 +798,83 @@ theorem fromBig_approx (hF : FastTwoSumSpec) {s : Bool} {b : Nat} (hK : 54 ≤ I
     omega
 
 end Conv
+
+/-! ## §5 `trunc`: the hypothesis `TruncSpec`, non-finite and integer-valued inputs -/
+
+namespace Conv
+open F64 TwoFloat
+
+/-- the scaled integer 1 -/
+abbrev U : Int := ((F64.unit : Nat) : Int)
+
+/-- Exactness of `TwoFloat::trunc` on valid inputs (property C08, to be discharged by
+`TFV.Properties.C08`): the result is valid and its value is the truncation toward zero of the exact
+value to an integer (a multiple of `U = 2^1074`). -/
+structure TruncSpec : Prop where
+  valid : ∀ x : TwoFloat, x.Valid → x.WF → (TwoFloat.trunc x).Valid
+  value : ∀ x : TwoFloat, x.Valid → x.WF → (TwoFloat.trunc x).V = Int.tdiv x.V U * U
+
+theorem add_inf_left_not_finite (s : Bool) (y : F64) : (F64.add (inf s) y).is_finite = false := by
+  cases y with
+  | nan => rfl
+  | inf t => show (if s = t then inf s else nan).is_finite = false; split_ifs <;> rfl
+  | fin t n => rfl
+
+theorem fast_two_sum_inf_hi (s : Bool) (y : F64) :
+    (arithmetic.fast_two_sum (inf s) y).hi.is_finite = false := add_inf_left_not_finite s y
+
+theorem floor_hi_not_finite (hi lo : F64) (h : hi.is_finite = false) :
+    (TwoFloat.floor ⟨hi, lo⟩).hi.is_finite = false := by
+  unfold TwoFloat.floor
+  cases hi with
+  | fin s n => exact absurd h (by simp [is_finite])
+  | nan => split_ifs <;> rfl
+  | inf s =>
+    split_ifs
+    · rfl
+    · exact fast_two_sum_inf_hi s _
+    · rfl
+
+theorem ceil_hi_not_finite (hi lo : F64) (h : hi.is_finite = false) :
+    (TwoFloat.ceil ⟨hi, lo⟩).hi.is_finite = false := by
+  unfold TwoFloat.ceil
+  cases hi with
+  | fin s n => exact absurd h (by simp [is_finite])
+  | nan => split_ifs <;> rfl
+  | inf s =>
+    split_ifs
+    · rfl
+    · exact fast_two_sum_inf_hi s _
+    · rfl
+
+/-- `trunc` keeps a non-finite high word non-finite, whatever the low word is -/
+theorem trunc_hi_not_finite (x : TwoFloat) (h : x.hi.is_finite = false) :
+    (TwoFloat.trunc x).hi.is_finite = false := by
+  rcases x with ⟨hi, lo⟩
+  unfold TwoFloat.trunc
+  split_ifs
+  · exact floor_hi_not_finite hi lo h
+  · exact ceil_hi_not_finite hi lo h
+
+theorem modf_pzero_frac : ((F64.modf (fin false 0)).1 ==. (f64lit 0x0000000000000000)) = true := by
+  decide +kernel
+
+theorem floor_int (s : Bool) (m : Nat) : F64.floor (fin s (m * F64.unit)) = fin s (m * F64.unit) := by
+  show (let t := m * F64.unit / F64.unit * F64.unit
+        if (s && t != m * F64.unit) = true then fin s (t + F64.unit) else fin s t) = _
+  simp only [Nat.mul_div_cancel _ unit_pos]
+  simp
+
+theorem ceil_int (s : Bool) (m : Nat) : F64.ceil (fin s (m * F64.unit)) = fin s (m * F64.unit) := by
+  show (let t := m * F64.unit / F64.unit * F64.unit
+        if (!s && t != m * F64.unit) = true then fin s (t + F64.unit) else fin s t) = _
+  simp only [Nat.mul_div_cancel _ unit_pos]
+  simp
+
+/-- `trunc` is the identity on `(n, +0)` for an integer-valued double `n` -/
+theorem trunc_int_pzero (s : Bool) (m : Nat) :
+    TwoFloat.trunc ⟨fin s (m * F64.unit), fin false 0⟩ = ⟨fin s (m * F64.unit), fin false 0⟩ := by
+  unfold TwoFloat.trunc TwoFloat.floor TwoFloat.ceil
+  simp only [modf_pzero_frac, if_true, floor_int, ceil_int, ite_self]
+
+end Conv
